@@ -15,15 +15,21 @@ import (
 
 	"github.com/buildbarn/bb-storage/pkg/blobstore"
 	"github.com/buildbarn/bb-storage/pkg/blobstore/buffer"
+	"github.com/buildbarn/bb-storage/pkg/blobstore/configuration"
 	"github.com/buildbarn/bb-storage/pkg/blobstore/mirrored"
 	"github.com/buildbarn/bb-storage/pkg/blobstore/replication"
 	"github.com/buildbarn/bb-storage/pkg/blobstore/slicing"
 	"github.com/buildbarn/bb-storage/pkg/clock"
 	"github.com/buildbarn/bb-storage/pkg/digest"
 	"github.com/buildbarn/bb-storage/pkg/eviction"
+	pb "github.com/buildbarn/bb-storage/pkg/proto/configuration/blobstore"
+	digest_pb "github.com/buildbarn/bb-storage/pkg/proto/configuration/digest"
+	eviction_pb "github.com/buildbarn/bb-storage/pkg/proto/configuration/eviction"
 	"golang.org/x/sync/semaphore"
 	"google.golang.org/grpc/codes"
 	"google.golang.org/grpc/status"
+	"google.golang.org/protobuf/types/known/durationpb"
+	"google.golang.org/protobuf/types/known/emptypb"
 
 	"verif/lib/gen"
 	"verif/lib/model"
@@ -60,6 +66,11 @@ type object struct {
 	d     digest.Digest
 	place int     // bit 0: replica A, bit 1: replica B
 	old   [2]bool // local replicas: park in an old block
+	// content identifies the contents: two objects of a scenario with the
+	// same content number are the same bytes under two instance names (one
+	// object for replicas keyed without the instance name, two objects for
+	// replicas that distinguish instance names).
+	content int
 }
 
 type operation struct {
@@ -93,11 +104,19 @@ type faultKey struct {
 }
 
 type scenario struct {
-	kinds     [2]string // model / localInMemory / localOnDevice
-	lcfg      [2]localCfg
-	repl      [2]int // [0]: A->B, [1]: B->A
-	metrics   bool   // wrap replicators in the metrics decorator like the configuration layer does
-	preRounds int    // GetCapabilities calls before the scenario (shifts the alternation)
+	kinds   [2]string // model / localInMemory / localOnDevice
+	lcfg    [2]localCfg
+	repl    [2]int // [0]: A->B, [1]: B->A
+	metrics bool   // wrap replicators in the metrics decorator like the configuration layer does
+	// cfgBuilt: the replicators are not assembled by hand but built by
+	// configuration.NewBlobReplicatorFromConfiguration from configuration
+	// messages, with the sink described by a BlobAccessInfo (the production
+	// wiring; it always adds the metrics decorator, at every level).
+	cfgBuilt bool
+	// keyed: the replicas distinguish instance names (model stores keyed
+	// with the instance name, hierarchical local stores).
+	keyed     bool
+	preRounds int // GetCapabilities calls before the scenario (shifts the alternation)
 	objs      []object
 	ops       []operation
 	faults    map[faultKey]fault
@@ -135,24 +154,34 @@ func (sc *scenario) String() string {
 		if o.old[1] && o.place&2 != 0 {
 			pl += "/oldB"
 		}
-		ps = append(ps, fmt.Sprintf("o%d[%d]=%s", i, len(o.data), pl))
+		ps = append(ps, fmt.Sprintf("o%d[c%d@%q,%d]=%s", i, o.content, o.d.GetInstanceName().String(), len(o.data), pl))
 	}
-	return fmt.Sprintf("replicas=%s,%s repl(A>B)=%s repl(B>A)=%s metrics=%v pre=%d objs={%s} ops=%s faults={%s}",
-		sc.kinds[0], sc.kinds[1], replNames[sc.repl[0]], replNames[sc.repl[1]], sc.metrics, sc.preRounds, strings.Join(ps, " "), strings.Join(os, ";"), sc.faultString())
+	return fmt.Sprintf("replicas=%s,%s keyed=%v repl(A>B)=%s repl(B>A)=%s cfgBuilt=%v metrics=%v pre=%d objs={%s} ops=%s faults={%s}",
+		sc.kinds[0], sc.kinds[1], sc.keyed, replNames[sc.repl[0]], replNames[sc.repl[1]], sc.cfgBuilt, sc.metrics, sc.preRounds, strings.Join(ps, " "), strings.Join(os, ";"), sc.faultString())
 }
 
-func mkReplicator(kind int, source, sink blobstore.BlobAccess, metrics bool, limit int64) replication.BlobReplicator {
+func (sc *scenario) keyFormat() digest.KeyFormat {
+	if sc.keyed {
+		return digest.KeyWithInstance
+	}
+	return digest.KeyWithoutInstance
+}
+
+// mkReplicator assembles a replicator by hand. sinkKF is the key format of the
+// sink, which the deduplicating strategy and the existence cache of the queued
+// strategy must use.
+func mkReplicator(kind int, source, sink blobstore.BlobAccess, sinkKF digest.KeyFormat, metrics bool, limit int64) replication.BlobReplicator {
 	var br replication.BlobReplicator
 	base := replication.NewLocalBlobReplicator(source, sink)
 	switch kind {
 	case replLocal:
 		br = base
 	case replDedup:
-		br = replication.NewDeduplicatingBlobReplicator(base, sink, digest.KeyWithoutInstance)
+		br = replication.NewDeduplicatingBlobReplicator(base, sink, sinkKF)
 	case replLimit:
 		br = replication.NewConcurrencyLimitingBlobReplicator(base, sink, semaphore.NewWeighted(limit))
 	case replQueued:
-		br = replication.NewQueuedBlobReplicator(source, base, digest.NewExistenceCache(clock.SystemClock, digest.KeyWithoutInstance, 64, time.Hour, eviction.NewLRUSet[string]()))
+		br = replication.NewQueuedBlobReplicator(source, base, digest.NewExistenceCache(clock.SystemClock, sinkKF, 64, time.Hour, eviction.NewLRUSet[string]()))
 	default:
 		br = replication.NewNoopBlobReplicator(source)
 	}
@@ -160,6 +189,44 @@ func mkReplicator(kind int, source, sink blobstore.BlobAccess, metrics bool, lim
 		br = replication.NewMetricsBlobReplicator(br, clock.SystemClock, "c11")
 	}
 	return br
+}
+
+var replicatorCreator = configuration.NewCASBlobReplicatorCreator(nil)
+
+// replicatorConfiguration is the configuration message of a strategy, the same
+// strategies over the same base as mkReplicator assembles by hand.
+func replicatorConfiguration(kind int, limit int64) *pb.BlobReplicatorConfiguration {
+	base := &pb.BlobReplicatorConfiguration{Mode: &pb.BlobReplicatorConfiguration_Local{Local: &emptypb.Empty{}}}
+	switch kind {
+	case replLocal:
+		return base
+	case replDedup:
+		return &pb.BlobReplicatorConfiguration{Mode: &pb.BlobReplicatorConfiguration_Deduplicating{Deduplicating: base}}
+	case replLimit:
+		return &pb.BlobReplicatorConfiguration{Mode: &pb.BlobReplicatorConfiguration_ConcurrencyLimiting{
+			ConcurrencyLimiting: &pb.ConcurrencyLimitingBlobReplicatorConfiguration{Base: base, MaximumConcurrency: limit},
+		}}
+	case replQueued:
+		return &pb.BlobReplicatorConfiguration{Mode: &pb.BlobReplicatorConfiguration_Queued{
+			Queued: &pb.QueuedBlobReplicatorConfiguration{
+				Base: base,
+				ExistenceCache: &digest_pb.ExistenceCacheConfiguration{
+					CacheSize:              64,
+					CacheDuration:          durationpb.New(time.Hour),
+					CacheReplacementPolicy: eviction_pb.CacheReplacementPolicy_LEAST_RECENTLY_USED,
+				},
+			},
+		}}
+	}
+	return &pb.BlobReplicatorConfiguration{Mode: &pb.BlobReplicatorConfiguration_Noop{Noop: &emptypb.Empty{}}}
+}
+
+// cfgReplicator builds a replicator the way a configuration file does:
+// configuration.NewBlobReplicatorFromConfiguration with the CAS creator, the
+// sink given as BlobAccessInfo (the replica and ITS key format).
+func cfgReplicator(kind int, source, sink blobstore.BlobAccess, sinkKF digest.KeyFormat, limit int64) (replication.BlobReplicator, error) {
+	return configuration.NewBlobReplicatorFromConfiguration(nil, replicatorConfiguration(kind, limit), source,
+		configuration.BlobAccessInfo{BlobAccess: sink, DigestKeyFormat: sinkKF}, replicatorCreator)
 }
 
 // halfSlicer splits a composite object into its two halves.
@@ -189,6 +256,14 @@ type world struct {
 	sc   *scenario
 	reps [2]*replica
 	m    blobstore.BlobAccess
+	// lostEver[r]: replica r has lost an acknowledged upload earlier in this
+	// scenario (faultLose). From then on nothing is asserted about repairs
+	// INTO r: a strategy may legitimately remember that it already copied an
+	// object there (the queued strategy's existence cache).
+	lostEver [2]bool
+	// repaired[r][content] = instance names under which the contents were
+	// copied into replica r by a repair (coverage bookkeeping only).
+	repaired [2]map[int]map[string]bool
 }
 
 // build assembles the replicas, places the objects and constructs the real
@@ -199,13 +274,19 @@ func build(c *run.Case, w *run.Worker, sc *scenario) (*world, bool) {
 	for i := 0; i < 2; i++ {
 		name := string(rune('A' + i))
 		if sc.kinds[i] == "model" {
-			wd.reps[i] = newModelReplica(name)
+			wd.reps[i] = newModelReplica(name, sc.keyFormat())
 		} else {
-			wd.reps[i] = newLocalReplica(name, sc.lcfg[i], sc.hashInit+uint64(i))
+			lc := sc.lcfg[i]
+			lc.hierarchical = sc.keyed
+			wd.reps[i] = newLocalReplica(name, lc, sc.hashInit+uint64(i))
 		}
 		for j, o := range sc.objs {
-			wd.reps[i].names[o.d.GetKey(digest.KeyWithoutInstance)] = fmt.Sprintf("o%d", j)
+			wd.reps[i].names[o.d.GetKey(digest.KeyWithInstance)] = fmt.Sprintf("o%d", j)
 		}
+		wd.repaired[i] = map[int]map[string]bool{}
+	}
+	if sc.keyed {
+		w.Count("scenarios_instance_aware_replicas", 1)
 	}
 	for i, r := range wd.reps {
 		bit := 1 << i
@@ -236,8 +317,23 @@ func build(c *run.Case, w *run.Worker, sc *scenario) (*world, bool) {
 			}
 		}
 	}
-	aToB := mkReplicator(sc.repl[0], wd.reps[0], wd.reps[1], sc.metrics, 2)
-	bToA := mkReplicator(sc.repl[1], wd.reps[1], wd.reps[0], sc.metrics, 2)
+	var aToB, bToA replication.BlobReplicator
+	if sc.cfgBuilt {
+		var err1, err2 error
+		aToB, err1 = cfgReplicator(sc.repl[0], wd.reps[0], wd.reps[1], wd.reps[1].kf, 2)
+		bToA, err2 = cfgReplicator(sc.repl[1], wd.reps[1], wd.reps[0], wd.reps[0].kf, 2)
+		if err1 != nil || err2 != nil {
+			// Not C11's business: nothing can be observed (the floors on the
+			// configuration-built counters make such a run inconclusive).
+			c.Logf("setup: NewBlobReplicatorFromConfiguration failed: A>B %s: %v; B>A %s: %v", replNames[sc.repl[0]], err1, replNames[sc.repl[1]], err2)
+			w.Count("setup_failed", 1)
+			return nil, false
+		}
+		w.Count("scenarios_configuration_built_replicators", 1)
+	} else {
+		aToB = mkReplicator(sc.repl[0], wd.reps[0], wd.reps[1], wd.reps[1].kf, sc.metrics, 2)
+		bToA = mkReplicator(sc.repl[1], wd.reps[1], wd.reps[0], wd.reps[0].kf, sc.metrics, 2)
+	}
 	wd.m = mirrored.NewMirroredBlobAccess(wd.reps[0], wd.reps[1], aToB, bToA)
 	for i := 0; i < sc.preRounds; i++ {
 		wd.m.GetCapabilities(context.Background(), digest.EmptyInstanceName)
@@ -372,13 +468,21 @@ func (wd *world) run() [2]int {
 		}
 		var fired []callRec
 		nfFired, withTask := false, false
+		// lost[r]: replica r acknowledged an upload during this operation and
+		// lost the object at once (faultLose).
+		var lost [2]bool
 		var cs []string
 		for _, cr := range calls {
 			cs = append(cs, cr.String())
 			if cr.fired != nil {
-				if cr.fired.kind == faultNotFound {
+				switch cr.fired.kind {
+				case faultNotFound:
 					nfFired = true
-				} else {
+				case faultLose:
+					lost[cr.replica[0]-'A'] = true
+					wd.lostEver[cr.replica[0]-'A'] = true
+					w.Count("uploads_acknowledged_then_lost", 1)
+				default:
 					fired = append(fired, cr)
 				}
 			}
@@ -448,7 +552,7 @@ func (wd *world) run() [2]int {
 		evicted := false
 		for i, ob := range sc.objs {
 			for r := 0; r < 2; r++ {
-				if allAges[i][r] != 0 && wd.reps[r].age(ob.d) == 0 {
+				if allAges[i][r] != 0 && wd.reps[r].age(ob.d) == 0 && !lost[r] {
 					evicted = true
 				}
 			}
@@ -460,7 +564,7 @@ func (wd *world) run() [2]int {
 			return [2]int{wd.reps[0].nCalls(), wd.reps[1].nCalls()}
 		}
 
-		nontrivial := len(fired) > 0 || nfFired || withTask
+		nontrivial := len(fired) > 0 || nfFired || withTask || lost[0] || lost[1]
 		for _, i := range involved {
 			if (allAges[i][0] != 0) != (allAges[i][1] != 0) {
 				nontrivial = true
@@ -475,7 +579,7 @@ func (wd *world) run() [2]int {
 			if o.kind == opPut || o.kind == opFindMissing {
 				keyFirst = -1 // both replicas are called in parallel: the order is a scheduling accident
 			}
-			w.Distinct(fmt.Sprintf("%v|%v|%d/%d|%v|%v|first=%d|%v|nf=%v|%s", sc.kinds, o, sc.repl[0], sc.repl[1], sc.metrics, pres, keyFirst, fs, nfFired, outcome))
+			w.Distinct(fmt.Sprintf("%v|%v|%v|%d/%d|%v%v|%v|first=%d|%v|nf=%v|lost=%v|%s", sc.kinds, sc.keyed, o, sc.repl[0], sc.repl[1], sc.cfgBuilt, sc.metrics, pres, keyFirst, fs, nfFired, lost, outcome))
 		}
 		if o.kind == opGet || o.kind == opGetFromComposite || o.kind == opGetCapabilities {
 			if first == 0 {
@@ -523,6 +627,34 @@ func (wd *world) run() [2]int {
 				w.Count("reads_with_spurious_notfound", 1)
 				continue
 			}
+			if lost[0] || lost[1] {
+				// The replica consulted first lacked the object, accepted the
+				// repair upload and has lost it again when it is read back (the
+				// strategies that copy first and then serve the read from the
+				// sink do read it back). The other replica holds the object
+				// before, during and after the read, so by "A read returns the
+				// object whenever at least one replica holds it" the read may
+				// not claim NOT_FOUND; the code answers with an INTERNAL error
+				// ("Blob absent from sink after replication"), which, the loss
+				// being a replica failure ("surfaced as an error ..., never as
+				// NOT_FOUND"), is accepted. Which backend that error names and
+				// whether the first replica ends up repaired is measured only.
+				w.Count("reads_with_repair_upload_lost", 1)
+				stillHeld := wd.reps[0].has(ob.d) || wd.reps[1].has(ob.d)
+				switch {
+				case res.err == nil:
+					w.Count("reads_ok_although_repair_upload_lost", 1)
+				case status.Code(res.err) == codes.NotFound && (hasFirst || hasSecond) && stillHeld:
+					c.Violation(opn+":replica-that-lost-the-repair-upload-surfaced-as-NOT_FOUND", "%v failed with NOT_FOUND (%v) although replica %c holds the object all along; replica %c accepted the repair upload and lost it again, which is a failure of that replica, not absence of the object", o, res.err, 'A'+1-first, 'A'+first)
+				case status.Code(res.err) == codes.NotFound:
+					w.Count("reads_notfound_after_loss_nobody_holds", 1)
+				case hasName(res.err, 0) || hasName(res.err, 1):
+					w.Count("reads_failed_after_repair_upload_lost_naming_a_backend", 1)
+				default:
+					w.Count("reads_failed_after_repair_upload_lost_without_backend_name", 1)
+				}
+				continue
+			}
 			switch {
 			case hasFirst || hasSecond:
 				if res.err != nil {
@@ -543,6 +675,11 @@ func (wd *world) run() [2]int {
 					w.Count("reads_noop_no_repair_expected", 1)
 					continue
 				}
+				if wd.lostEver[first] {
+					w.Count("repairs_not_asserted_after_loss", 1)
+					continue
+				}
+				wd.noteRepair(first, ob)
 				if ok, why := wd.reps[first].bytesOK(ob.d, ob.data, false); !ok {
 					c.Violation(opn+":first-consulted-replica-not-repaired", "%v succeeded through replica %c, but the replica consulted first (%c) still lacks the object afterwards (%s)", o, 'A'+1-first, 'A'+first, why)
 				} else {
@@ -583,6 +720,11 @@ func (wd *world) run() [2]int {
 			}
 			w.Count("puts_ok", 1)
 			for r := 0; r < 2; r++ {
+				if lost[r] {
+					// The upload did reach the replica; the replica lost it.
+					w.Count("puts_ok_then_lost_by_replica", 1)
+					continue
+				}
 				if ok, why := wd.reps[r].bytesOK(ob.d, ob.data, false); !ok {
 					c.Violation(opn+":acknowledged-but-replica-lacks-object", "%v returned nil but replica %c does not hold the object afterwards (%s)", o, 'A'+r, why)
 				}
@@ -600,14 +742,17 @@ func (wd *world) run() [2]int {
 				continue
 			}
 			w.Count("findmissing_ok", 1)
+			// Digests are matched with their instance name: the same contents
+			// under two instance names are two entries of a request and, for
+			// replicas that distinguish instance names, two objects.
 			reported := map[string]bool{}
 			for _, d := range res.missing.Items() {
-				reported[d.GetKey(digest.KeyWithoutInstance)] = true
+				reported[d.GetKey(digest.KeyWithInstance)] = true
 			}
 			inSet := map[string]bool{}
 			for _, i := range o.set {
 				ob := sc.objs[i]
-				k := ob.d.GetKey(digest.KeyWithoutInstance)
+				k := ob.d.GetKey(digest.KeyWithInstance)
 				inSet[k] = true
 				a, b := allAges[i][0] != 0, allAges[i][1] != 0
 				if reported[k] && (a || b) {
@@ -626,6 +771,11 @@ func (wd *world) run() [2]int {
 						w.Count("findmissing_noop_no_copy_expected", 1)
 						continue
 					}
+					if wd.lostEver[to] {
+						w.Count("repairs_not_asserted_after_loss", 1)
+						continue
+					}
+					wd.noteRepair(to, ob)
 					if ok, why := wd.reps[to].bytesOK(ob.d, ob.data, false); !ok {
 						c.Violation(opn+":succeeded-without-equalising-replicas", "%v succeeded, o%d was held by replica %c only, and replica %c still lacks it afterwards (%s)", o, i, 'A'+1-to, 'A'+to, why)
 					} else {
@@ -665,6 +815,31 @@ func (wd *world) run() [2]int {
 		}
 	}
 	return [2]int{wd.reps[0].nCalls(), wd.reps[1].nCalls()}
+}
+
+// noteRepair is coverage bookkeeping: a repair INTO replica `to` is due for the
+// object. It counts the repairs of contents that were already copied into the
+// same replica under ANOTHER instance name earlier in the scenario - the
+// history in which a strategy that remembers what it copied (queued: existence
+// cache; deduplicating: in-flight map) must key its memory the way the sink
+// keys its objects.
+func (wd *world) noteRepair(to int, ob object) {
+	in := ob.d.GetInstanceName().String()
+	m := wd.repaired[to][ob.content]
+	if m == nil {
+		m = map[string]bool{}
+		wd.repaired[to][ob.content] = m
+	}
+	if !m[in] && len(m) > 0 {
+		wd.w.Count("repairs_due_after_same_contents_repaired_under_other_instance_name", 1)
+		if wd.sc.keyed {
+			wd.w.Count("repairs_due_after_sibling_repair_instance_aware_replicas", 1)
+			if wd.sc.cfgBuilt {
+				wd.w.Count("repairs_due_after_sibling_repair_instance_aware_cfg_built", 1)
+			}
+		}
+	}
+	m[in] = true
 }
 
 // checkSurfaced: "Any replica failure other than NOT_FOUND is surfaced as an
